@@ -62,7 +62,6 @@ def natives(it: Interp) -> None:
         return statistics.median(xs)
     it.native["statistics.mean"] = mean
     it.native["statistics.median"] = median
-    it.native["logging.getLogger"] = lambda *a: None
 
 
 def small_model(mb: ModelBuilder) -> AObj:
